@@ -25,13 +25,19 @@ def run(ctx):
             forced = {2, 4, 6, first_rename, min(n, first_rename + 1)}
             ks = range(1, n + 1) if (not ctx.quick and i < 10) else sorted(
                 {k for k in forced if 1 <= k <= n} | set(rng.sample(range(1, n + 1), min(n, ctx.pick(4, 12)))))
-            for k in ks:
-                scen.append(fs_drv.stepped(env, drf, cc, ops, "kill%d@%d" % (i, k), rng, kill_at=k, every=ctx.pick(4, 2)))
+            for kn, k in enumerate(ks):
+                # after two of three kills a new recorder process is started on the tree the dead one left behind
+                rs = [None, "same", "go-on", "same", "later", "same"][(kn + i) % 6]
+                scen.append(fs_drv.stepped(env, drf, cc, ops, "kill%d@%d%s" % (i, k, "+restart-" + rs if rs else ""), rng, kill_at=k,
+                                           every=ctx.pick(4, 2), restart=rs))
                 nkills += 1
     fc.account(ctx, scen, "recordings (gapped / continuous / compressed, multi-file writes, blocks, subdirectory change) stepped one "
                "file-system operation at a time with a tree snapshot (raw h5py decode of every final file, tmp names, properties file), "
                "reader passes and listings between operations; real SIGKILLs at sampled (quick) / all (thorough, first 10 jobs) stops "
-               "followed by a post-mortem snapshot, a fresh reader and a listing")
+               "followed by a post-mortem snapshot, a fresh reader and a listing, and (two of three) by a new recorder process on the "
+               "same tree whose write falls into the file period that was in progress at the kill (then closes, or goes on to a free "
+               "period first) or into a later one")
+    ctx.extra["restarts_after_kill"] = sum(1 for s in scen for e in s["events"] if e["ev"] == "restart")
     ctx.extra["real_kills"] = nkills
     ctx.extra["crash_points"] = sum(1 for s in scen for e in s["events"] if e["ev"] == "snap")
     ctx.validate("DrfFsTrace", "DrfFsTrace.cfg", scen, label="stepped recording", relevant=fc.relevance(PREFIXES))
